@@ -70,6 +70,8 @@ pub fn exec(db: &dyn IndexDatabase, range: FileRange) -> Option<Vec<InlayHint>> 
             _ => {}
         }
     }
+    // symbols that merely overlap the range can own hints that lie outside of it
+    hints.retain(|hint| range.range.contains_inclusive(hint.position));
     Some(hints)
 }
 
